@@ -12,33 +12,38 @@ def configs(tier):
   if tier == 'thorough':
     triples = [(a, b, c) for a in (0, 1, 2) for b in (1, 2, 3) for c in (0, 1, 2) if a <= b]
   for (mn, mx, ql) in triples:
-    depth = 12 if tier == 'quick' else 14
+    depth = 12 if tier == 'quick' else 18
     out.append(('min=%d max=%d qlen=%d' % (mn, mx, ql),
                 {'min': mn, 'max': mx, 'qlen': ql, 'ops': ['Req', 'Done', 'Timeout', 'Die'], 'max_active': mx + ql + 1,
-                 'max_reqs': 8 if tier == 'quick' else 10, 'max_die': 1 if tier == 'quick' else 2}, depth))
+                 'max_reqs': 8 if tier == 'quick' else 12, 'max_die': 1 if tier == 'quick' else 3}, depth))
   # connection creation that takes time (requests blocked inside the pool while a connection opens)
   for (mn, mx, ql) in ([(1, 2, 1)] if tier == 'quick' else [(1, 2, 1), (0, 2, 2), (1, 3, 1)]):
     out.append(('pending opens min=%d max=%d qlen=%d' % (mn, mx, ql),
                 {'min': mn, 'max': mx, 'qlen': ql, 'ops': ['Req', 'Done', 'Timeout', 'Open'], 'max_active': mx + ql + 1,
-                 'max_reqs': 4 if tier == 'quick' else 5, 'open_mode': 'pending', 'ok_first': 1}, 7 if tier == 'quick' else 8))
+                 'max_reqs': 4 if tier == 'quick' else 6, 'open_mode': 'pending', 'ok_first': 1}, 7 if tier == 'quick' else 11))
   # a pool that leaves max_queue_len at its default, built after another pool of the process was given a queue length of 1
   out.append(('default queue length, after another pool was configured min=1 max=1',
               {'min': 1, 'max': 1, 'qlen': 2147483647, 'ops': ['Req', 'Done', 'Timeout'], 'max_active': 5, 'max_reqs': 5, 'stock_after_prior': True}, 7))
+  # pools whose settings were given as overrides of another provider's (provider.Clone(...)), zero values included
+  for (mn, mx, ql) in ([(0, 1, 0), (0, 2, 1), (1, 1, 0)] if tier == 'quick' else [(0, 1, 0), (0, 2, 1), (1, 1, 0), (0, 2, 0), (2, 3, 0), (0, 1, 2)]):
+    out.append(('settings given through Clone() min=%d max=%d qlen=%d' % (mn, mx, ql),
+                {'min': mn, 'max': mx, 'qlen': ql, 'ops': ['Req', 'Done', 'Timeout'], 'max_active': mx + ql + 1, 'max_reqs': 5,
+                 'via_clone': True}, 7 if tier == 'quick' else 10))
   # requests that arrive while the pool's own Open() is still waiting for its first (warm-up) connection
   for (mn, mx, ql) in ([(1, 1, 2)] if tier == 'quick' else [(1, 1, 2), (1, 2, 2), (0, 1, 2)]):
     out.append(('warm-up connection still opening min=%d max=%d qlen=%d' % (mn, mx, ql),
                 {'min': mn, 'max': mx, 'qlen': ql, 'ops': ['Req', 'Done', 'Timeout', 'Open'], 'max_active': mx + ql + 1,
-                 'max_reqs': 4, 'open_mode': 'pending', 'ok_first': 0}, 7 if tier == 'quick' else 8))
+                 'max_reqs': 4 if tier == 'quick' else 6, 'open_mode': 'pending', 'ok_first': 0}, 7 if tier == 'quick' else 11))
   # a consumer that re-enters the pool from the callback that fails a queued request when the pool closes
   for (mn, mx, ql) in ([(0, 1, 2), (1, 2, 2)] if tier == 'quick' else [(0, 1, 2), (1, 2, 2), (0, 2, 3), (1, 1, 3)]):
     out.append(('re-entrant consumer min=%d max=%d qlen=%d' % (mn, mx, ql),
                 {'min': mn, 'max': mx, 'qlen': ql, 'ops': ['Req', 'Done', 'Die'], 'max_active': mx + ql + 1, 'reenter': True,
-                 'max_reqs': 5, 'max_die': 1}, 8 if tier == 'quick' else 10))
+                 'max_reqs': 5 if tier == 'quick' else 7, 'max_die': 1 if tier == 'quick' else 2}, 8 if tier == 'quick' else 13))
   # operations landing between two ready callbacks (e.g. between a release and the queued _ProcessQueue)
   for (mn, mx, ql) in ([(1, 1, 2)] if tier == 'quick' else [(1, 1, 2), (1, 2, 2)]):
     out.append(('preemption min=%d max=%d qlen=%d' % (mn, mx, ql),
                 {'min': mn, 'max': mx, 'qlen': ql, 'ops': ['Req', 'Done', 'Timeout'], 'max_active': mx + ql + 1,
-                 'max_reqs': 4, 'max_preempt': 2, 'preempt_depth': 2}, 6 if tier == 'quick' else 8))
+                 'max_reqs': 4 if tier == 'quick' else 5, 'max_preempt': 2, 'preempt_depth': 2}, 6 if tier == 'quick' else 10))
   return out
 
 
